@@ -5,6 +5,15 @@ CLASSES = {
   'MessageSink': dict(path='MessageSink', bases=[], fields={'_next': 'Channel?'}),
   'ClientMessageSink': dict(path='ClientMessageSink', bases=['MessageSink'], fields={'_on_faulted': 'Observable'}),
   'Observable': dict(extern=True, path=None, fields={'value': 'any'}, bases=[]),
+  'RefCountedSink': dict(path='RefCountedSink', bases=['ClientMessageSink'], fields={
+    '_ref_count': 'int', '_open_ar': 'AsyncResult?', '_open_lock': 'any',
+    # ghost: how often this wrapper opened / closed its underlying sink
+    'g_opens': 'int', 'g_closes': 'int'}, ghost=['g_opens', 'g_closes']),
+  'SinkProviderBase': dict(path='SinkProviderBase', bases=[], fields={'next_provider': 'NextProvider', 'sink_properties': 'any'}),
+  'SharedSinkProvider': dict(path='SharedSinkProvider', bases=['SinkProviderBase'], fields={
+    '_key_selector': 'KeySelector', '_cache': 'dict[any,RefCountedSink]'}),
+  'KeySelector': dict(extern=True, path=None, fields={}, bases=[]),
+  'NextProvider': dict(extern=True, path=None, fields={}, bases=[]),
   'SinkStack': dict(path='SinkStack', bases=[], fields={'_stack': 'deque[tuple[any,any]]', 'g_posted': 'int'}, ghost=['g_posted']),
   'ClientMessageSinkStack': dict(path='ClientMessageSinkStack', bases=['SinkStack'], fields={}),
   # a request/reply message: only its properties dictionary is visible to the sinks verified here
@@ -15,7 +24,66 @@ CLASSES = {
     '__Deadline_Event': ('event', 'Observable?'), '__Endpoint': ('endpoint', 'any')}),
   'Deadline': dict(file='scales/message.py', path='Deadline', bases=[], fields={'_ts': 'int', '_timeout': 'int'}),
 }
+PREDICATES = {
+  # underlying sink is open exactly while somebody holds the wrapper
+  'RCInv': (['s'], 's._ref_count >= 0 and s._next is not None and '
+                   's.g_opens - s.g_closes == (1 if s._ref_count > 0 else 0) and '
+                   '(s._open_ar is not None) == (s._ref_count > 0)'),
+}
+
 FUNCTIONS = {
+  'RefCountedSink.Open': dict(
+    cls='RefCountedSink', returns='AsyncResult?',
+    requires=['RCInv(self)'],
+    ensures=['RCInv(self)', 'self._ref_count == old(self._ref_count) + 1',
+             # the underlying sink is opened on the first Open only, and everybody gets the same result
+             'self.g_opens == old(self.g_opens) + (1 if old(self._ref_count) == 0 else 0)',
+             'self._next.g_opens == old(self._next.g_opens) + (1 if old(self._ref_count) == 0 else 0)',
+             'self.g_closes == old(self.g_closes)', 'self._next.g_closes == old(self._next.g_closes)',
+             'result == self._open_ar and result is not None',
+             'implies(old(self._ref_count) > 0, result == old(self._open_ar))'],
+    modifies=['RefCountedSink._ref_count', 'RefCountedSink._open_ar', 'RefCountedSink.g_opens', 'Channel.g_opens'],
+    allocates=True,
+    ghost=[{'after': 'self._open_ar = self.next_sink.Open()', 'do': ['self.g_opens = self.g_opens + 1']}],
+    props=['C16'],
+  ),
+  'RefCountedSink.Close': dict(
+    cls='RefCountedSink',
+    requires=['RCInv(self)'],
+    ensures=['RCInv(self)',
+             # surplus closes are ignored
+             'implies(old(self._ref_count) == 0, self._ref_count == 0 and self.g_closes == old(self.g_closes) and self._next.g_closes == old(self._next.g_closes))',
+             'implies(old(self._ref_count) > 0, self._ref_count == old(self._ref_count) - 1)',
+             # the underlying sink is closed by the last holder only
+             'self.g_closes == old(self.g_closes) + (1 if old(self._ref_count) == 1 else 0)',
+             'self._next.g_closes == old(self._next.g_closes) + (1 if old(self._ref_count) == 1 else 0)',
+             'self.g_opens == old(self.g_opens)'],
+    modifies=['RefCountedSink._ref_count', 'RefCountedSink._open_ar', 'RefCountedSink.g_closes', 'Channel.state', 'Channel.g_closes'],
+    ghost=[{'after': 'self.next_sink.Close()', 'do': ['self.g_closes = self.g_closes + 1']}],
+    props=['C16'],
+  ),
+  'SharedSinkProvider.CreateSink': dict(
+    cls='SharedSinkProvider', params={'properties': 'any'}, returns='Channel',
+    locals={'sink': 'RefCountedSink?'},
+    requires=['forall(k, "any", implies(k in self._cache, allocated(self._cache[k]) and RCInv(self._cache[k])))'],
+    ensures=[
+      # same key -> same sink while it is cached; otherwise one new ref-counted wrapper, cached under the key
+      'forall(k, "any", implies(old(k in self._cache), (k in self._cache) and self._cache[k] == old(self._cache[k])))',
+      'forall(k, "any", implies(k in self._cache, allocated(self._cache[k]) and RCInv(self._cache[k])))',
+    ],
+    modifies=['dict[any,RefCountedSink]', 'RefCountedSink._ref_count', 'RefCountedSink._open_ar', 'RefCountedSink._open_lock',
+              'RefCountedSink.g_opens', 'RefCountedSink.g_closes', 'MessageSink._next', 'ClientMessageSink._on_faulted', '$cls'],
+    allocates='any',
+    ghost=[
+      {'after': 'key = self._key_selector(properties)', 'do': ['g_key = key']},
+      {'after': 'sink = RefCountedSink(new_sink)', 'do': ['sink.g_opens = 0', 'sink.g_closes = 0',
+         'prove(sink._ref_count == 0 and sink._next == new_sink and fresh(sink), "new-wrapper")']},
+      {'before': 'return sink', 'do': [
+         'prove(implies(old(g_key in self._cache), sink == old(self._cache[g_key])), "cached-sink-reused")',
+         'prove((g_key in self._cache) and self._cache[g_key] == sink, "cached-under-key")']},
+    ],
+    props=['C16'],
+  ),
   'SinkStack.Push': dict(
     cls='SinkStack', params={'sink': 'any', 'context': 'any'},
     requires=['sink is not None'],
@@ -54,6 +122,10 @@ FUNCTIONS = {
 }
 
 EXTERNS = {
+  'KeySelector.__call__': dict(params=[('properties', 'any')], returns='any'),
+  'NextProvider.CreateSink': dict(params=[('properties', 'any')], returns='Channel', fresh=True, allocates=True),
+  'Observable.__init__': dict(params=[], returns='Observable', fresh=True, allocates=True),
+  'RLock': dict(params=[], returns='any'),
   'Observable.Get': dict(params=[], returns='any', ensures=['result == self.value']),
   'Observable.Set': dict(params=[('value', 'any')], modifies=['Observable.value'], allocates=True,
                          ensures=['self.value == value', 'forall_ref(o, Observable, implies(o != self, o.value == old(o.value)), o.value)'],
